@@ -18,15 +18,8 @@ import (
 func init() {
 	register("C02", "exploration", C02)
 	Replayers["C02"] = func(raw []byte) string {
-		var f struct {
-			Foreign *foreignCase `json:"foreign"`
-		}
-		if json.Unmarshal(raw, &f) == nil && f.Foreign != nil {
-			res := runForeignCase(f.Foreign)
-			if res.C02Sig == "" {
-				return "holds"
-			}
-			return res.C02Sig + ": " + res.C02Msg
+		if out, ok := replayForeign(raw, "C02"); ok {
+			return out
 		}
 		var c tblCase
 		if err := json.Unmarshal(raw, &c); err != nil {
